@@ -65,6 +65,9 @@ def _run_variant(args):
     except AnalysisError as e:
         if not rep.findings:
             return ("analysis-error", str(e))
+        # violations decided before the analysis error stand (as in check.run_property); without a *new* one the caller
+        # treats the variant as fail-closed
+        return ("partial", (sorted({(f.rule, f.key) for f in rep.findings}), str(e)))
     found = sorted({(f.rule, f.key) for f in rep.findings})
     if not found and rep.undecided:
         return ("analysis-error", "undecided: %s" % [u[:2] for u in rep.undecided][:3])
@@ -104,6 +107,12 @@ def run(ctx, rule_module) -> None:
             out["skipped"].append({"name": m.name, "why": "anchor text not found in current source"})
             continue
         status, payload = results[j]
+        if status == "partial":
+            found_, err_ = payload
+            if [k for k in found_ if tuple(k) not in base]:
+                status, payload = "ok", found_
+            else:
+                status, payload = "analysis-error", err_
         if kind == "mutant":
             if status == "ok":
                 new = [k for k in payload if tuple(k) not in base]
